@@ -32,7 +32,7 @@ CONSTANTS RootUsesMenu,   \* menu (a sequence) of `uses` lists: sequences of [f,
 \* input kinds: "class"/"name" (required), "opt" (InputTaskParameter with a default), "pattern" (~regex, own namespace)
 NoGrp == <<>>
 Ref(g, n) == [ns |-> <<>>, grp |-> g, name |-> n]
-Classes == {"a", "b", "c", "d", "trainx", "ge", "f", "pat", "cy1", "cy2", "z", "w", "bsub", "both", "both2", "gb", "mi", "selfpat"}
+Classes == {"a", "b", "c", "d", "trainx", "ge", "f", "pat", "cy1", "cy2", "z", "w", "bsub", "both", "both2", "gb", "mi", "selfpat", "ol"}
 Slug == [c \in Classes |->
   CASE c = "a" -> Ref(NoGrp, "a")            [] c = "b" -> Ref(NoGrp, "b")
     [] c = "c" -> Ref(NoGrp, "c")            [] c = "d" -> Ref(NoGrp, "d")
@@ -43,12 +43,14 @@ Slug == [c \in Classes |->
     [] c = "both" -> Ref(NoGrp, "both")      [] c = "both2" -> Ref(NoGrp, "both2")
     [] c = "gb" -> Ref(<<"g">>, "b")          \* a grouped namesake of b (another class)
     [] c = "mi" -> Ref(NoGrp, "mi")           \* a class whose Meta INHERITS its input declaration from a base Meta class
+    [] c = "ol" -> Ref(NoGrp, "ol")           \* an optional input written INSIDE Meta.input_tasks, in front of a required one
     [] c = "selfpat" -> Ref(<<"h">>, "a")     \* a task named a whose ~pattern input matches every task named a - itself too
     [] c = "bsub" -> Ref(NoGrp, "bsub")]      \* a class DERIVED from b with a Meta of its own: its own name, inputs, no parameters
 Inputs == [c \in Classes |->
   CASE c = "b" -> <<[kind |-> "class", ref |-> Ref(NoGrp, "a")]>>
     [] c = "c" -> <<[kind |-> "name", ref |-> Ref(NoGrp, "a")], [kind |-> "opt", ref |-> Ref(NoGrp, "b"), byclass |-> TRUE]>>
     [] c = "mi" -> <<[kind |-> "name", ref |-> Ref(NoGrp, "a")]>>
+    [] c = "ol" -> <<[kind |-> "opt", ref |-> Ref(NoGrp, "a"), byclass |-> TRUE], [kind |-> "name", ref |-> Ref(NoGrp, "b")]>>
     [] c = "selfpat" -> <<[kind |-> "pattern", ref |-> Ref(NoGrp, "a")]>>      \* a declared self-cycle: construction fails
     [] c = "d" -> <<[kind |-> "class", ref |-> Ref(NoGrp, "train_x")]>>
     [] c = "f" -> <<[kind |-> "name", ref |-> Ref(NoGrp, "e")]>>
